@@ -1,8 +1,520 @@
-//! C03 awake-flag protocol replica (Miri, weak memory) — not built yet.
+//! C03 (secondary leg) — protocol replica of the driver's wake flag.
+//!
+//! MODEL-ASSISTED evidence. The flag is the REAL `AwakeFlag` of compio-driver
+//! (re-exported as `compio_driver::VerifAwakeFlag`); everything around it is a
+//! ~30-line replica of how the drivers use it:
+//!
+//! * driver side = `iour::Driver::poll` / `poll::Driver::poll`
+//!   (`need_wait = !reset(); wait; set_awake(); poll_entries(); set_awake()`)
+//!   and, in mode `flush`, `Driver::flush` (`reset()`, "already notified?")
+//!   followed by an external wait on the descriptor and `poll(Some(0))`;
+//! * waker side = `Notify::wake_by_ref` (`if !awake.wake() { write(eventfd) }`);
+//! * the eventfd / `polling` notifier is a counter plus a condvar;
+//! * the thing to be woken for is a *mailbox*: wakers do `posted += 1` before
+//!   waking, the driver thread moves `posted` into `seen` whenever it is awake
+//!   (this is what `block_on` re-polling the main future / `Executor::tick`
+//!   → `drain_sync` does). The mailbox's own orderings are a parameter:
+//!   `sc` (SeqCst, the strongest mailbox: isolates the flag) and `ra`
+//!   (`fetch_add(Release)` / `load(Acquire)` — what compio-executor's
+//!   `Shared::pending` uses in `Remote::schedule` / `drain_sync`).
+//!
+//! Oracle = mailbox conservation at logical quiescence: once every waker
+//! thread has finished, the driver must not be about to block for ever in the
+//! (modelled) kernel wait with `posted > seen`. That state *is* the lost
+//! wake-up; it is detected logically (all wakers done, eventfd counter zero,
+//! driver entering the blocking wait) and reported instead of hanging.
+//!
+//! Trusted base: the replica mirrors iour::Driver::poll/flush, poll::Driver::poll
+//! and Notify::wake_by_ref as of this tree. It would not notice a change of the
+//! loop itself (legs on the real runtime do); it does notice changes of the
+//! flag's operations/orderings (`wake` using swap, `reset` not clearing, ...).
+//!
+//! Runs under Miri (real threads, weak-memory emulation, many schedules per
+//! process) and natively as a stress.
 
-use vcommon::Args;
+use std::{
+    sync::{
+        Arc, Barrier, Condvar, Mutex,
+        atomic::{AtomicU64, AtomicUsize, Ordering},
+    },
+    thread,
+};
 
-pub fn main(_args: &Args) {
-    eprintln!("c03f: not implemented");
-    std::process::exit(3);
+use compio_driver::VerifAwakeFlag;
+use vcommon::{Args, Report, Rng, json};
+
+#[derive(Clone, Copy, PartialEq, Eq, Debug)]
+enum Mode {
+    /// `Driver::poll(None)` in a loop (the runtime's own loop).
+    Poll,
+    /// `Driver::flush()`, external wait on the descriptor, `poll(Some(0))`.
+    Flush,
+}
+
+#[derive(Clone, Copy, PartialEq, Eq, Debug)]
+enum Mailbox {
+    Sc,
+    Ra,
+}
+
+impl Mode {
+    fn name(self) -> &'static str {
+        match self {
+            Mode::Poll => "poll",
+            Mode::Flush => "flush",
+        }
+    }
+
+    fn parse(s: &str) -> Option<Self> {
+        match s {
+            "poll" => Some(Mode::Poll),
+            "flush" => Some(Mode::Flush),
+            _ => None,
+        }
+    }
+}
+
+impl Mailbox {
+    fn name(self) -> &'static str {
+        match self {
+            Mailbox::Sc => "sc",
+            Mailbox::Ra => "ra",
+        }
+    }
+
+    fn parse(s: &str) -> Option<Self> {
+        match s {
+            "sc" => Some(Mailbox::Sc),
+            "ra" => Some(Mailbox::Ra),
+            _ => None,
+        }
+    }
+}
+
+#[derive(Clone, Debug)]
+struct Round {
+    /// wakes issued by each waker thread in this round (>= 0)
+    wakes: Vec<usize>,
+    /// Per waker: m != 0 = yield before every wake whose index is a multiple
+    /// of m (gives the scheduler a switch point; preemption does the rest).
+    yields: Vec<usize>,
+}
+
+/// One program = one flag + one driver replica thread + `wakers` persistent
+/// waker threads, run for several *rounds*. A round ends at logical
+/// quiescence (every waker returned from its wakes, driver replica blocked in
+/// the modelled kernel wait); the oracle is evaluated there and the driver
+/// stays blocked *inside the same wait* when the next round starts, exactly
+/// like a runtime that sleeps between bursts of cross-thread wakes.
+#[derive(Clone, Debug)]
+struct Program {
+    mode: Mode,
+    mailbox: Mailbox,
+    wakers: usize,
+    rounds: Vec<Round>,
+    /// Driver yields between `set_awake` and the mailbox read?
+    driver_yield: bool,
+}
+
+impl Program {
+    fn to_json(&self, upto: usize) -> vcommon::Value {
+        json!({
+            "mode": self.mode.name(), "mailbox": self.mailbox.name(), "wakers": self.wakers,
+            "rounds": self.rounds.iter().take(upto).map(|r| json!({"wakes": r.wakes, "yields": r.yields})).collect::<Vec<_>>(),
+            "driver_yield": self.driver_yield,
+        })
+    }
+
+    fn from_json(v: &vcommon::Value) -> Option<Self> {
+        let us = |x: &vcommon::Value| -> Option<Vec<usize>> {
+            Some(x.as_array()?.iter().map(|y| y.as_u64().unwrap_or(0) as usize).collect())
+        };
+        Some(Self {
+            mode: Mode::parse(v["mode"].as_str()?)?,
+            mailbox: Mailbox::parse(v["mailbox"].as_str()?)?,
+            wakers: v["wakers"].as_u64()? as usize,
+            rounds: v["rounds"]
+                .as_array()?
+                .iter()
+                .map(|r| Some(Round { wakes: us(&r["wakes"])?, yields: us(&r["yields"])? }))
+                .collect::<Option<Vec<_>>>()?,
+            driver_yield: v["driver_yield"].as_bool().unwrap_or(false),
+        })
+    }
+}
+
+#[derive(Default)]
+struct EvState {
+    /// every waker has returned from all wakes of the current round
+    wakers_done: bool,
+    /// the driver reported quiescence for the current round: Some(seen)
+    report: Option<u64>,
+    exit: bool,
+}
+
+/// The modelled eventfd (iour) / `polling` notifier (poll driver).
+struct EventFd {
+    count: AtomicU64,
+    m: Mutex<EvState>,
+    cv: Condvar,
+    writes: AtomicU64,
+}
+
+enum Wait {
+    Readable,
+    Exit,
+}
+
+impl EventFd {
+    fn new() -> Self {
+        Self {
+            count: AtomicU64::new(0),
+            m: Mutex::new(EvState::default()),
+            cv: Condvar::new(),
+            writes: AtomicU64::new(0),
+        }
+    }
+
+    /// `rustix::io::write(&fd, 1)` / `Poller::notify()`.
+    fn write(&self) {
+        self.count.fetch_add(1, Ordering::Release);
+        self.writes.fetch_add(1, Ordering::Relaxed);
+        let _g = self.m.lock().unwrap();
+        self.cv.notify_all();
+    }
+
+    /// The blocking kernel wait (`io_uring_enter` with `min_complete = 1`,
+    /// `epoll_wait(-1)`): returns when the descriptor is readable. While
+    /// blocked with nobody left to write (logical quiescence) it reports
+    /// `seen` to the harness and keeps waiting.
+    fn wait(&self, seen: u64) -> Wait {
+        let mut g = self.m.lock().unwrap();
+        loop {
+            if self.count.load(Ordering::Acquire) > 0 {
+                return Wait::Readable;
+            }
+            if g.exit {
+                return Wait::Exit;
+            }
+            if g.wakers_done && g.report.is_none() {
+                g.report = Some(seen);
+                self.cv.notify_all();
+            }
+            g = self.cv.wait(g).unwrap();
+        }
+    }
+
+    /// `poll_entries` → `Notifier::clear()` when the notifier CQE is there.
+    fn clear_if_readable(&self) -> bool {
+        if self.count.load(Ordering::Acquire) > 0 {
+            self.count.swap(0, Ordering::AcqRel);
+            true
+        } else {
+            false
+        }
+    }
+
+    /// Harness: all wakers of this round are done; wait until the driver
+    /// replica is blocked for good and return what it had seen by then.
+    fn quiesce(&self) -> u64 {
+        let mut g = self.m.lock().unwrap();
+        g.wakers_done = true;
+        self.cv.notify_all();
+        loop {
+            if let Some(seen) = g.report {
+                return seen;
+            }
+            g = self.cv.wait(g).unwrap();
+        }
+    }
+
+    fn next_round(&self, exit: bool) {
+        let mut g = self.m.lock().unwrap();
+        g.wakers_done = false;
+        g.report = None;
+        g.exit = exit;
+        self.cv.notify_all();
+    }
+}
+
+struct World {
+    flag: VerifAwakeFlag,
+    ev: EventFd,
+    posted: AtomicU64,
+    /// Driver phase for the coverage signature only (Relaxed: adds no
+    /// synchronisation). 0 awake/consuming, 1 after reset before the wait,
+    /// 2 after the wait before set_awake.
+    phase: AtomicUsize,
+    /// bitmask of (phase, elided) pairs observed by wakers in this round
+    seen_pairs: AtomicUsize,
+    elided: AtomicU64,
+    loops: AtomicU64,
+    blocking: AtomicU64,
+    round: AtomicUsize,
+}
+
+fn read_mailbox(w: &World, mb: Mailbox) -> u64 {
+    match mb {
+        Mailbox::Sc => w.posted.load(Ordering::SeqCst),
+        Mailbox::Ra => w.posted.load(Ordering::Acquire),
+    }
+}
+
+/// The replica of the driver thread.
+fn driver_loop(w: &World, p: &Program) {
+    let mut seen = 0u64;
+    loop {
+        w.loops.fetch_add(1, Ordering::Relaxed);
+        // ---- Driver::flush (external-loop mode only)
+        if p.mode == Mode::Flush {
+            let notified = w.flag.reset();
+            w.phase.store(1, Ordering::Relaxed);
+            if !notified {
+                // the external loop waits for the descriptor to become
+                // readable; it does not consume the counter
+                w.blocking.fetch_add(1, Ordering::Relaxed);
+                if let Wait::Exit = w.ev.wait(seen) {
+                    return;
+                }
+            }
+        }
+        // ---- Driver::poll
+        let need_wait = !w.flag.reset();
+        w.phase.store(1, Ordering::Relaxed);
+        if need_wait && p.mode == Mode::Poll {
+            w.blocking.fetch_add(1, Ordering::Relaxed);
+            if let Wait::Exit = w.ev.wait(seen) {
+                return;
+            }
+        }
+        w.phase.store(2, Ordering::Relaxed);
+        w.flag.set(); // notifier.set_awake()
+        w.ev.clear_if_readable(); // poll_entries(): NOTIFY cqe → notifier.clear()
+        w.flag.set(); // notifier.set_awake()
+        w.phase.store(0, Ordering::Relaxed);
+        if p.driver_yield {
+            thread::yield_now();
+        }
+        // ---- back in the runtime: re-poll the main future / tick()
+        seen = seen.max(read_mailbox(w, p.mailbox));
+    }
+}
+
+fn waker_round(w: &World, p: &Program, idx: usize, r: &Round) {
+    let m = r.yields.get(idx).copied().unwrap_or(0);
+    for i in 0..r.wakes.get(idx).copied().unwrap_or(0) {
+        if m != 0 && i % m == 0 {
+            thread::yield_now();
+        }
+        match p.mailbox {
+            Mailbox::Sc => w.posted.fetch_add(1, Ordering::SeqCst),
+            Mailbox::Ra => w.posted.fetch_add(1, Ordering::Release),
+        };
+        let phase = w.phase.load(Ordering::Relaxed);
+        // Notify::wake_by_ref
+        let e = w.flag.wake();
+        if !e {
+            w.ev.write();
+        } else {
+            w.elided.fetch_add(1, Ordering::Relaxed);
+        }
+        w.seen_pairs.fetch_or(1 << (phase * 2 + e as usize), Ordering::Relaxed);
+    }
+}
+
+/// Runs the program; returns true if a violation was reported.
+fn evaluate(p: &Program, rep: &mut Report) -> bool {
+    let w = Arc::new(World {
+        flag: VerifAwakeFlag::new(),
+        ev: EventFd::new(),
+        posted: AtomicU64::new(0),
+        phase: AtomicUsize::new(0),
+        seen_pairs: AtomicUsize::new(0),
+        elided: AtomicU64::new(0),
+        loops: AtomicU64::new(0),
+        blocking: AtomicU64::new(0),
+        round: AtomicUsize::new(0),
+    });
+    // The driver starts awake (the runtime is running user code).
+    w.flag.set();
+    let p = Arc::new(p.clone());
+    let start = Arc::new(Barrier::new(p.wakers + 1));
+    let end = Arc::new(Barrier::new(p.wakers + 1));
+    let drv = {
+        let (w, p) = (w.clone(), p.clone());
+        thread::spawn(move || driver_loop(&w, &p))
+    };
+    let hs: Vec<_> = (0..p.wakers)
+        .map(|i| {
+            let (w, p, start, end) = (w.clone(), p.clone(), start.clone(), end.clone());
+            thread::spawn(move || {
+                loop {
+                    start.wait();
+                    let r = w.round.load(Ordering::SeqCst);
+                    if r >= p.rounds.len() {
+                        return;
+                    }
+                    waker_round(&w, &p, i, &p.rounds[r]);
+                    end.wait();
+                }
+            })
+        })
+        .collect();
+    let mut bad = false;
+    let mut expected = 0u64;
+    let mut r = 0;
+    while r < p.rounds.len() {
+        let round = &p.rounds[r];
+        w.round.store(r, Ordering::SeqCst);
+        w.seen_pairs.store(0, Ordering::SeqCst);
+        let (e0, w0) = (w.elided.load(Ordering::SeqCst), w.ev.writes.load(Ordering::SeqCst));
+        start.wait();
+        end.wait();
+        // every wake() of this round has returned
+        let seen = w.ev.quiesce();
+        let posted = w.posted.load(Ordering::SeqCst);
+        let issued: usize = round.wakes.iter().take(p.wakers).sum();
+        expected += issued as u64;
+        let elided = w.elided.load(Ordering::SeqCst) - e0;
+        let writes = w.ev.writes.load(Ordering::SeqCst) - w0;
+        let pairs_mask = w.seen_pairs.load(Ordering::SeqCst);
+        rep.count("wakes_issued", issued as i64);
+        rep.count("wakes_elided", elided as i64);
+        rep.count("eventfd_writes", writes as i64);
+        rep.floor("saw-elided-wake", elided > 0);
+        rep.floor("saw-eventfd-write", writes > 0);
+        // coverage signature: (mode, mailbox, wakers, (phase, elided) pairs)
+        let mut pairs = String::new();
+        for ph in 0..3 {
+            for e in 0..2 {
+                if pairs_mask & (1 << (ph * 2 + e)) != 0 {
+                    pairs.push_str(["a", "r", "w"][ph]);
+                    pairs.push_str(["s", "e"][e]);
+                }
+            }
+        }
+        // non-trivial: at least one wake landed while the driver was not
+        // running (after reset / around the kernel wait)
+        let nontrivial = pairs_mask & 0b11_1100 != 0;
+        rep.eval(nontrivial.then(|| {
+            let wc = match issued {
+                0..=4 => issued.to_string(),
+                5..=16 => "le16".into(),
+                17..=256 => "le256".into(),
+                _ => "gt256".into(),
+            };
+            let ys = round.yields.iter().take(p.wakers).filter(|m| **m != 0).count();
+            format!("replica:{}:{}:n{}:w{}:y{}{}:{}", p.mode.name(), p.mailbox.name(), p.wakers, wc, ys,
+                    if p.driver_yield { "d" } else { "" }, pairs)
+        }));
+        if rep.want_sample() && nontrivial {
+            rep.sample(json!({"mode": p.mode.name(), "mailbox": p.mailbox.name(), "wakers": p.wakers, "round": r,
+                              "wakes": round.wakes, "posted": posted, "seen": seen, "elided": elided,
+                              "eventfd_writes": writes, "phase_pairs": pairs}));
+        }
+        if posted != expected {
+            rep.inconclusive("harness: posted counter does not match the program");
+        }
+        r += 1;
+        if seen < posted {
+            bad = true;
+            rep.violation(
+                &format!("C03/flag-replica/lost-wake/{}/mailbox-{}", p.mode.name(), p.mailbox.name()),
+                &format!(
+                    "model-assisted (replica of Driver::poll/flush + Notify::wake_by_ref around the real AwakeFlag): all {} \
+                     waker threads returned from wake(), the driver replica is blocked in the kernel wait with eventfd counter 0, \
+                     but posted={} > seen={} (this round: {} wakes, {} elided, {} eventfd writes): a wake-up was dropped, not coalesced",
+                    p.wakers, posted, seen, issued, elided, writes
+                ),
+                json!({"program": p.to_json(r), "reps": 2000}),
+            );
+            break;
+        } else if seen > posted {
+            rep.inconclusive("harness: seen > posted");
+        }
+        w.ev.next_round(false);
+    }
+    rep.count("driver_loops", w.loops.load(Ordering::SeqCst) as i64);
+    rep.count("blocking_waits", w.blocking.load(Ordering::SeqCst) as i64);
+    rep.floor("saw-blocking-wait", w.blocking.load(Ordering::SeqCst) > 1);
+    // shut down: wakers leave at the next start barrier, the driver at exit
+    w.round.store(usize::MAX, Ordering::SeqCst);
+    start.wait();
+    w.ev.next_round(true);
+    for h in hs {
+        h.join().expect("waker thread");
+    }
+    drv.join().expect("driver replica thread");
+    bad
+}
+
+fn gen_program(rng: &mut Rng, modes: &[Mode], mailboxes: &[Mailbox], max_wakers: usize, max_wakes: usize, rounds: usize) -> Program {
+    let wakers = rng.range(1, max_wakers);
+    Program {
+        mode: *rng.pick(modes),
+        mailbox: *rng.pick(mailboxes),
+        wakers,
+        rounds: (0..rng.range(1, rounds))
+            .map(|_| Round {
+                // at least one waker wakes; some sit a round out
+                wakes: (0..wakers).map(|i| if i == 0 || rng.chance(3, 4) { rng.range(1, max_wakes) } else { 0 }).collect(),
+                yields: (0..wakers).map(|_| if rng.chance(1, 3) { 0 } else { rng.range(1, 3) }).collect(),
+            })
+            .collect(),
+        driver_yield: rng.chance(1, 3),
+    }
+}
+
+pub fn main(args: &Args) {
+    let leg = args.str("leg", "native");
+    let mut rep = Report::from_args("C03", &leg, args);
+    rep.note(
+        "c03f is MODEL-ASSISTED: the real AwakeFlag driven by a replica of iour::Driver::poll/flush, poll::Driver::poll and \
+         Notify::wake_by_ref; eventfd = counter + condvar; mailbox orderings: sc = SeqCst, ra = Release/Acquire as \
+         compio-executor's Shared::pending. A change to the real loop is not seen here (runtime legs do that).",
+    );
+    if let Some(path) = args.get("replay") {
+        let text = std::fs::read_to_string(path).expect("replay file");
+        let v: vcommon::Value = vcommon::serde_json::from_str(&text).expect("replay json");
+        let Some(p) = Program::from_json(&v["program"]["program"]) else {
+            rep.inconclusive("replay file has no c03f program (crash replays carry only stderr)");
+            rep.finish();
+            return;
+        };
+        let reps = args.usize("reps", v["program"]["reps"].as_u64().unwrap_or(2000) as usize);
+        let reps = if cfg!(miri) { reps.min(300) } else { reps };
+        for _ in 0..reps {
+            if evaluate(&p, &mut rep) || rep.out_of_time() {
+                break;
+            }
+        }
+        rep.finish();
+        return;
+    }
+    let modes: Vec<Mode> = match args.get("mode") {
+        Some(m) => vec![Mode::parse(m).expect("--mode poll|flush")],
+        None => vec![Mode::Poll, Mode::Flush],
+    };
+    let mailboxes: Vec<Mailbox> = match args.get("mailbox") {
+        Some(m) => m.split(',').map(|m| Mailbox::parse(m).expect("--mailbox sc|ra")).collect(),
+        None => vec![Mailbox::Sc, Mailbox::Ra],
+    };
+    let max_wakers = args.usize("max-wakers", if cfg!(miri) { 3 } else { 6 });
+    let max_wakes = args.usize("max-wakes", 4);
+    let rounds = args.usize("rounds", if cfg!(miri) { 4 } else { 200 });
+    let iters = args.iters(if cfg!(miri) { 40 } else { 400 }, if cfg!(miri) { 800 } else { 8_000 });
+    let base = Rng::new(args.seed()).fork(args.shard() + 1);
+    // Shift Miri's own schedule stream per shard (its seed is per process).
+    for _ in 0..(args.shard() * 7 + args.seed() % 5) {
+        thread::yield_now();
+    }
+    for i in 0..iters {
+        if rep.out_of_time() {
+            break;
+        }
+        let mut rng = base.fork(i as u64);
+        let p = gen_program(&mut rng, &modes, &mailboxes, max_wakers, max_wakes, rounds);
+        evaluate(&p, &mut rep);
+    }
+    rep.finish();
 }
